@@ -180,7 +180,11 @@ def run_impl(pcfg, pairs, d, rng=None):
             keys[stem[:-6]] = [(recs[i], recs[i + 1]) for i in range(0, len(recs), 2)]
         elif stem.endswith(".1"):
             other = singles.get(stem[:-2] + ".2")
-            if other is None:
+            inter_main = pcfg.interleaved_out and not (b.demux or pcfg.combinatorial)
+            if other is None and stem[:-2] in ("tooshort", "toolong", "untrimmed") and (not inter_main or pcfg.redirect_two):
+                # two redirect files were asked for: the second one must exist
+                res["files"]["MISSING:" + stem[:-2] + ".2." + ext] = []
+            elif other is None:
                 # redirect files written interleaved into the first path
                 if len(recs) % 2 == 0:
                     keys[stem[:-2]] = [(recs[i], recs[i + 1]) for i in range(0, len(recs), 2)]
